@@ -38,14 +38,20 @@ LEVEL_TEXT = ("Machine-checked for the tree as it is now (all repairs found by t
               "entry point and the union (alternative_entry_point, union_first_match), explicit axes compile like "
               "abbreviated ones in every compiler branch (explicit_axis_irrelevant), one matcher step = the forward step "
               "from the parent and handleFoundIndex is exact (step_matches_iff_selected, handleFoundIndex_spec, "
-              "fwdStep_eq_spec). For the code as found the statement was false: five *_counterexample theorems, the "
+              "fwdStep_eq_spec); consumers that pre-filter candidate nodes by target data lose no match: the target "
+              "classification regenerated from XPath::getTargetData and the routing regenerated from "
+              "Stylesheet::addTemplate serve every node kind a last step can match, and KeyTable::KeyTable (facts "
+              "regenerated from KeyTable.cpp) offers every node and attribute to every key pattern "
+              "(target_data_complete, keytable_visits_complete). For the code as found the statement was false: five *_counterexample theorems, the "
               "classes where it held anyway (match_iff_select_partial, match_implies_select_partial), and "
               "repaired_witnesses / backtracking_witnesses. The transcription is tied to the working tree by comparing, for "
               "every generated (pattern, document): step and predicate op codes, the score of every node from both entry "
               "points, independence of the caller's context node list, and the expression engine's answer for every node.")
 LEVEL_NOTE = ("Trusted: Lean kernel; axioms propext/Classical.choice/Quot.sound only; the hand transcription (checked by "
               "the correspondence run, bounded by generator coverage: ~32 000 cases quick, ~1.09 M thorough incl. small-scope "
-              "exhaustive); harness/c09_patterns.cpp, checks/c09.py, gen/c09_gen.py. Outside the modelled grammar, hence "
+              "exhaustive); harness/c09_patterns.cpp, checks/c09.py, gen/c09_gen.py, translate/c09_keytable.py and translate/c10_priority.py "
+              "(regex translators; the consumer phase runs each consumer with a single declaration against the "
+              "defining expression, so a filter the translators misread still shows). Outside the modelled grammar, hence "
               "outside the theorem: predicate bodies other than the listed shapes (general XPath inside [...]), key() as a "
               "leading step at API level (its matcher code is the id() code, covered; key()-led patterns, template match, "
               "xsl:key match, xsl:number count/from are observed through stylesheets only), unions with an id()/key() "
@@ -74,6 +80,8 @@ THEOREMS = [
     "XalanModel.Props.C09.idkey_match_iff_select",
     "XalanModel.Props.C09.explicit_axis_irrelevant",
     "XalanModel.Props.C09.alternative_entry_point",
+    "XalanModel.Props.C09.target_data_complete",
+    "XalanModel.Props.C09.keytable_visits_complete",
 ]
 
 
@@ -664,6 +672,101 @@ def idkey_stream(ctx, harness, model, work, ndocs, npat):
                json.dumps(dis[:3]) + ierr[-300:] + merr[-300:])
 
 
+CONSUMER_PATTERNS = [
+    # last steps whose target data is *not* the obvious one: node tests on the attribute axis, node() alone, unions
+    # of different node kinds, the root
+    "@node()", "attribute::node()", "node()", "text()|@*", "comment()", "processing-instruction()", "*/@node()",
+    "//attribute::node()", "@*", "*", "text()", "/", "*//node()", "comment()|processing-instruction()|@node()",
+]
+
+
+def consumer_stylesheet(pat, with_key, helper_key):
+    """ONE xsl:key declaration (match=pat) and ONE template (match=pat) — nothing else that could mask a pre-filter
+    built from the patterns' target data.  Per node: <in key('k','1')><template fired><defining expression>."""
+    o = [XSL_HEAD]
+    if with_key:
+        o.append('<xsl:key name="k" match="%s" use="\'1\'"/>' % xml_escape(pat))
+    if helper_key:
+        o.append('<xsl:key name="kn" match="*" use="name()"/><xsl:key name="kx" match="*[@x]" use="1"/>')
+    body = ('<xsl:variable name="n" select="."/>'
+            '<xsl:choose><xsl:when test="not(..)">r</xsl:when><xsl:when test="self::*">e</xsl:when>'
+            '<xsl:when test="self::text()">t</xsl:when><xsl:when test="self::comment()">c</xsl:when>'
+            '<xsl:when test="self::processing-instruction()">p</xsl:when><xsl:otherwise>a</xsl:otherwise></xsl:choose>'
+            '<xsl:text> </xsl:text>'
+            + ('<xsl:value-of select="count(key(\'k\',\'1\')[generate-id()=generate-id(current())])"/>' if with_key
+               else '<xsl:text>-</xsl:text>') +
+            '<xsl:variable name="o"><xsl:apply-templates select="." mode="m"/></xsl:variable>'
+            '<xsl:value-of select="number(contains($o, concat(\'[\', generate-id(), \']\')))"/>'
+            '<xsl:value-of select="number(boolean(ancestor-or-self::node()[count((%s)|$n)=count(%s)]))"/>'
+            '<xsl:text>&#10;</xsl:text>') % (xml_escape(pat), xml_escape(pat))
+    o.append('<xsl:template match="/"><xsl:for-each select="/">%s</xsl:for-each>'
+             '<xsl:for-each select="//node() | //@*">%s</xsl:for-each></xsl:template>' % (body, body))
+    # the template prints the id of the node it fired for: a built-in rule recursing into children cannot fake it
+    o.append('<xsl:template match="%s" mode="m">[<xsl:value-of select="generate-id()"/>]</xsl:template>' % xml_escape(pat))
+    o.append('</xsl:stylesheet>')
+    return "".join(o)
+
+
+def consumer_phase(ctx, cases, work, ndocs):
+    """Consumers of match patterns that may pre-filter candidate nodes by target data (XPath::getTargetData): the
+    xsl:key table (KeyTable::KeyTable) and template lookup (Stylesheet::addTemplate / locateMatchPatternDataList).
+    Each is run with the pattern as the ONLY declaration of its kind and compared, node by node, with the defining
+    expression evaluated in the same transformation."""
+    cli = os.path.join(common.build_dir("hooks"), "src", "xalanc", "Xalan")
+    rr = Rng(ctx.seed * 2654435761 % (2 ** 31) + 11)
+    jobs = []
+    for doc, pats in cases[:ndocs]:
+        own = [g.render_pattern(P) for P in pats[:3] if not g.render_pattern(P).startswith("/|")]
+        for t in CONSUMER_PATTERNS + own:
+            jobs.append((g.xml_of(doc), len(g.table_of(doc)), t, True, False))
+        g.set_pool(doc)
+        for t in gen_fn_patterns(rr, 2) + ["key('kn','%s')//@node()" % rr.choice(g.POOL["e"]),
+                                           "key('kn','%s')/node()" % rr.choice(g.POOL["e"])]:
+            jobs.append((g.xml_of(doc), len(g.table_of(doc)), t, False, True))      # key() head: template consumer only
+        g.set_pool(None)
+    for _ in range(max(4, ndocs // 4)):
+        doc = g.gen_doc(rr, rr.range(4, 18), ns=False)
+        ids = g.add_ids(rr, doc)
+        if not ids:
+            continue
+        v = sorted(ids)
+        for t in ["id('%s')" % v[0], "id('%s')//@node()" % " ".join(v[:2]), "id('%s')/node()" % v[0],
+                  "id('%s')//text()" % v[-1]]:
+            jobs.append((g.xml_with_dtd(doc), len(g.table_of(doc)), t, True, False))
+    nchk = nmatch = 0
+    bad = []
+    for xml, nn, t, with_key, helper in jobs:
+        xmlf = os.path.join(work, "c09_cons.xml")
+        xslf = os.path.join(work, "c09_cons.xsl")
+        with open(xmlf, "w") as f:
+            f.write(xml)
+        with open(xslf, "w") as f:
+            f.write(consumer_stylesheet(t, with_key, helper))
+        rc, out = common.sh([cli, xmlf, xslf], timeout=120)
+        lines = [l for l in out.split("\n") if l]
+        if rc != 0 or len(lines) != nn or any(len(l) != 5 or l[1] != " " for l in lines):
+            bad.append(dict(site="consumer cli", pattern=t, doc=xml, what="unexpected CLI output rc=%d: %s" % (rc, out[-300:])))
+            continue
+        for i, l in enumerate(lines):
+            kbit, tbit, dbit = l[2], l[3], l[4]
+            nchk += 1
+            nmatch += dbit == "1"
+            if with_key and kbit != dbit:
+                bad.append(dict(site="consumer xsl:key %s" % ("missed" if dbit == "1" else "spurious"), pattern=t, doc=xml, node=i,
+                                what="node %d (%s): in key('k','1') = %s, the defining expression selects = %s (stylesheet with "
+                                     "this single xsl:key declaration)" % (i, l[0], kbit, dbit)))
+                break
+            if tbit != dbit:
+                bad.append(dict(site="consumer template %s" % ("missed" if dbit == "1" else "spurious"), pattern=t, doc=xml, node=i,
+                                what="node %d (%s): template fired = %s, the defining expression selects = %s (stylesheet with "
+                                     "this single template)" % (i, l[0], tbit, dbit)))
+                break
+    ctx.extra["consumers"] = dict(stylesheets=len(jobs), node_checks=nchk, nodes_selected=nmatch, violations=len(bad))
+    for b in bad[:20]:
+        ctx.fail("%s: %s" % (b["site"], b["pattern"]), "%s on %s: %s" % (b["site"], b["doc"], b["what"]),
+                 dict(pattern=b["pattern"], doc=b["doc"], consumer=b["site"]))
+
+
 def spaced(text, r):
     """the same pattern with ExprWhitespace between tokens (XPath 1.0 3.7)"""
     import re
@@ -728,6 +831,10 @@ def run(ctx):
         "namespaces / namespace-declaration attributes, id()/key() pattern steps, whitespace stripping, DOM navigation",
     ]
     ctx.build("hooks")
+    # regenerated from the source on every run: getTargetData / addTemplate routing (shared with C10) and the
+    # KeyTable constructor's walk; target_data_complete / keytable_visits_complete are re-checked against them
+    ctx.translate("c10_priority")
+    ctx.translate("c09_keytable")
     ctx.lean("XalanModel.Props.C09", THEOREMS, extra_targets=["xm_c09"])
     model = ctx.exe("xm_c09")
     harness = common.build_harness("c09_patterns", ["c09_patterns.cpp"], flavor="hooks")
@@ -782,6 +889,7 @@ def run(ctx):
                not ctx.extra.get("violations_inside_proved_class"),
                json.dumps(ctx.extra.get("violations_inside_proved_class", [])[:3]))
     use_sites(ctx, cases, REPLIES.get("main", {}), work, 150 if not ctx.thorough else 1500)
+    consumer_phase(ctx, cases, work, 24 if not ctx.thorough else 400)
     whitespace_stream(ctx, harness, cases, work, 120 if not ctx.thorough else 1500)
     if VARIANT[3]:
         idkey_stream(ctx, harness, model, work, 300 if not ctx.thorough else 6000, 8)
@@ -803,6 +911,21 @@ def replay(ctx, path):
     if not inp:
         print("replay file names broken obligations only:", [o["name"] for o in d.get("broken_obligations", [])])
         return 1
+    if "consumer" in inp:
+        xmlf = os.path.join(work, "c09_replay.xml")
+        xslf = os.path.join(work, "c09_replay.xsl")
+        with open(xmlf, "w") as f:
+            f.write(inp["doc"])
+        with open(xslf, "w") as f:
+            f.write(consumer_stylesheet(inp["pattern"], "key(" not in inp["pattern"], "key(" in inp["pattern"]))
+        cli = os.path.join(common.build_dir("hooks"), "src", "xalanc", "Xalan")
+        rc, out = common.sh([cli, xmlf, xslf], timeout=120)
+        print("pattern:", inp["pattern"], " document:", inp["doc"])
+        print("per node: kind <in key('k','1')><template fired><defining expression selects>")
+        print(out)
+        badl = [l for l in out.split("\n") if l and not (l[2] in ("-", l[4]) and l[3] == l[4])]
+        print("consumers agree with the definition:", "yes" if rc == 0 and not badl else "NO at %s" % badl)
+        return 0 if rc == 0 and not badl else 1
     if "request" not in inp:
         # use-site failure: re-run the one pattern as a template match in a stylesheet, against the defining expression
         pat = inp["pattern"] if isinstance(inp["pattern"], str) else inp["pattern"][0]
